@@ -6,7 +6,7 @@ Con(dd) == <<"construct", dd>>
 \* C12: one thread, one encode of each pool document
 Progs1 == {[t \in {"A"} |-> <<Enc(dd)>>] : dd \in {x \in DocIds : ~Fails(x)}}
 \* C14: one thread, every history of at most MaxHist operations followed by the target encode
-HistOps == {Enc(dd) : dd \in DocIds} \cup {Con(dd) : dd \in {x \in DocIds : SharesBody(x)}}
+HistOps == {Enc(dd) : dd \in DocIds} \cup {Con(dd) : dd \in {x \in DocIds : Constructible(x)}}
 Targets == {x \in DocIds : ~Fails(x)}
 Hists(n) == UNION {[1..m -> HistOps] : m \in 0..n}
 \* (an operator with a parameter: TLC evaluates zero-arity definitions eagerly, and Hists(3) has |HistOps|^3 elements)
